@@ -133,10 +133,30 @@ def ref_exclude(config, tags, ignore_unknown=True):
     return False
 
 
+class CallableObject(object):
+    """A lazy current value does not have to be a function: any callable will do."""
+    def __init__(self, v):
+        self.v = v
+
+    def __call__(self):
+        return self.v
+
+
+def lazy_of(v, flavour_index):
+    import functools
+    k = flavour_index % 3
+    if k == 0:
+        return lambda: v
+    if k == 1:
+        return functools.partial(lambda x: x, v)
+    return CallableObject(v)
+
+
 class Lab(object):
     def __init__(self):
         from behave import tag_matcher as tm
         self.tm = tm
+        self.nlazy = 0
 
     def build_value(self, spec):
         tm = self.tm
@@ -144,15 +164,15 @@ class Lab(object):
         if kind == "str":
             return spec[1]
         if kind == "lazy":
-            v = spec[1]
-            return tm.ValueObject(lambda: v)
+            self.nlazy += 1
+            return tm.ValueObject(lazy_of(spec[1], self.nlazy))
         if kind == "vo":
             return tm.ValueObject(spec[1], OPS[spec[2]])
         if kind == "num":
             return tm.NumberValueObject(spec[1], OPS[spec[2]])
         if kind == "numlazy":
-            v = spec[1]
-            return tm.NumberValueObject(lambda: v, OPS[spec[2]])
+            self.nlazy += 1
+            return tm.NumberValueObject(lazy_of(spec[1], self.nlazy), OPS[spec[2]])
         if kind == "bool":
             return tm.BoolValueObject(spec[1])
         raise ValueError(spec)
@@ -168,8 +188,8 @@ class Lab(object):
                 if s is None:
                     continue
                 if s[0] == "str":
-                    v = s[1]
-                    d2[c] = (lambda v=v: v)      # lazy callable resolved by the provider
+                    self.nlazy += 1
+                    d2[c] = lazy_of(s[1], self.nlazy)      # lazy callable resolved by the provider
                 else:
                     d2[c] = data[c]
             return tm.ActiveTagValueProvider(d2)
@@ -210,11 +230,22 @@ def run(spec, mon):
         flavour = ("dict", "atvp", "composite")[ci % 3]
         matcher = tm.ActiveTagMatcher(lab.provider(config, flavour))
         strict = tm.ActiveTagMatcher(lab.provider(config, "dict"), ignore_unknown_categories=False)
-        comp = tm.CompositeTagMatcher([tm.ActiveTagMatcher(lab.provider({k: (v if k in ("os", "a.b") else None)
-                                                                        for k, v in config.items()}, "dict")),
-                                       tm.ActiveTagMatcher(lab.provider({k: (v if k in ("n", "flag") else None)
-                                                                        for k, v in config.items()}, "dict")),
-                                       tm.PredicateTagMatcher(lambda tags: "wip" in tags and "xnot.with_os=linux" in tags)])
+        members = [tm.ActiveTagMatcher(lab.provider({k: (v if k in ("os", "a.b") else None) for k, v in config.items()}, "dict")),
+                   tm.ActiveTagMatcher(lab.provider({k: (v if k in ("n", "flag") else None) for k, v in config.items()}, "dict")),
+                   tm.PredicateTagMatcher(lambda tags: "wip" in tags and "xnot.with_os=linux" in tags)]
+        if ci % 2:
+            comp = tm.CompositeTagMatcher(members)
+        else:
+            # the other construction style: an empty composite that is filled afterwards -- and a SECOND empty composite that
+            # stays empty and therefore never excludes anything
+            comp = tm.CompositeTagMatcher()
+            bystander = tm.CompositeTagMatcher()
+            for m in members:
+                comp.tag_matchers.append(m)
+            mon.check("composite.empty_composite_excludes_nothing",
+                      not bystander.should_exclude_with(["use.with_os=nosuch", "not.with_os=linux", "wip", "xnot.with_os=linux"])
+                      and len(bystander.tag_matchers) == 0,
+                      lambda: dict(config=config, bystander_members=len(bystander.tag_matchers)))
         mon.seen("provider_flavour", flavour)
         for mi, ms in enumerate(multisets):
             if tier == "quick" and len(ms) == 3 and (mi + ci) % 7:
